@@ -427,7 +427,12 @@ def _maybe_attach_shm(
     except (ValueError, UnicodeDecodeError):
         _logger.warning("Ignoring malformed SHM metadata: name=%r, size=%r", shm_name_bytes, shm_size_bytes)
         return None
-    return ShmSegment.attach(shm_name, shm_size, track=False)
+    try:
+        return ShmSegment.attach(shm_name, shm_size, track=False)
+    except (OSError, ValueError) as exc:
+        # Missing / foreign / unattachable segment: client-supplied data, not a reason to end the serve loop.
+        _logger.warning("Ignoring SHM segment %r that cannot be attached: %s", shm_name, exc)
+        return None
 
 
 class _ConnectionShm:
